@@ -149,6 +149,10 @@ func registerNatives(e *Engine) map[string]nativeFn {
 	n["strings.EqualFold"] = func(fr *Frame, st *State, args []Val, c *ssa.CallCommon, pos string) Val {
 		return &VS{mkEq(mkApp("str.lower", SStr, scalarOf(args[0], nil)), mkApp("str.lower", SStr, scalarOf(args[1], nil)))}
 	}
+	n["github.com/tidwall/match.Match"] = func(fr *Frame, st *State, args []Val, c *ssa.CallCommon, pos string) Val {
+		fr.vc.note("native model: match.Match(str, pattern) is an uninterpreted predicate glob_match(str, pattern)")
+		return &VS{mkApp("uf$glob_match", SBool, scalarOf(args[0], nil), scalarOf(args[1], nil))}
+	}
 	n["bytes.Equal"] = func(fr *Frame, st *State, args []Val, c *ssa.CallCommon, pos string) Val {
 		a, b := args[0].(*VSlice), args[1].(*VSlice)
 		return &VS{mkEq(fr.vc.bytesToStr(st, a), fr.vc.bytesToStr(st, b))}
